@@ -86,12 +86,21 @@ class cpu_guard:
         def _alarm(signum, frame):
             import sys
 
+            # only while code under test is running: a later strike that arrives when the harness has already caught the
+            # time-out (and is, say, building its report inside the guarded block) must not raise into the harness
+            f, under_test = frame, False
+            while f is not None and f is not self.owner:
+                if not f.f_code.co_filename.startswith(here):
+                    under_test = True
+                f = f.f_back
+            if not under_test:
+                return
             if self.armed:
                 self.strikes += 1
                 if self.strikes > 24:  # ~12 more CPU seconds of raising on every line did not unwind it
                     os._exit(71)
             f = frame
-            while f is not None:
+            while f is not None and f is not self.owner:
                 if not f.f_code.co_filename.startswith(here):
                     f.f_trace = _raiser
                 f = f.f_back
@@ -99,8 +108,11 @@ class cpu_guard:
             self.armed = True
             raise _Timeout()
 
+        import sys as _sys
+
         self.armed = False
         self.strikes = 0
+        self.owner = _sys._getframe(1)  # the frame that entered the guard: everything above it is not guarded
         self.old = signal.signal(signal.SIGVTALRM, _alarm)
         signal.setitimer(signal.ITIMER_VIRTUAL, self.limit, 0.5)
         return self
